@@ -8,7 +8,7 @@ use crate::{
     gen::{self, FrameMix, GenStats, LinkCfg, WriteCfg},
     oracle::{analyze, trace_hash, v, Violation},
     rng::{Fnv, Rng},
-    scenario::{AppOp, Imp, ReadEv, SizeMode, StreamScenario},
+    scenario::{AppOp, ErrKind, Imp, ReadEv, SizeMode, StreamScenario, WriteEv},
     streamprop::{shrink_stream, trace_json},
 };
 
@@ -150,39 +150,13 @@ impl Prop for C05 {
         let mix = FrameMix::swarm(rng);
         let target = gen::session_bytes_target(rng);
         let mut frames = gen::gen_frames_to_target(rng, mode, &mix, target, 4000, stats);
+        let mut quiet_edge: Option<usize> = None;
         if rng.chance(1, 12) {
-            // boundary session: a frame boundary exactly at (or one frame short of / beyond) the
-            // receive buffer's capacity, so that spare capacity reaches exactly zero
-            let cap = 6120usize * rng.usize(1, 2);
-            let mut total = 0usize;
-            let mut fs: Vec<Vec<u8>> = Vec::new();
-            for f in frames.iter() {
-                if total + f.len() + 4 > cap {
-                    break;
-                }
-                total += f.len();
-                fs.push(f.clone());
-            }
-            // pad with 4-byte TINYs (and, uncompressed only, one odd-sized unknown frame) up to cap + d
-            let d: isize = *rng.pick(&[-4isize, 0, 0, 0, 4]);
-            let goal = (cap as isize + d) as usize;
-            if mode == SizeMode::Uncompressed && (goal - total) % 4 != 0 && goal - total >= 5 {
-                let n = 4 + (goal - total) % 4;
-                let mut odd = vec![0xEEu8; n];
-                odd[0] = n as u8;
-                odd[1] = 200;
-                total += n;
-                fs.push(odd);
-            }
-            while total + 4 <= goal {
-                fs.push(gen::tiny(mode, rng.byte() | 1, 3));
-                total += 4;
-            }
-            // and carry on after the boundary
-            for _ in 0..rng.usize(1, 6) {
-                fs.push(gen::gen_frame(rng, mode, &mix, stats));
-            }
+            let (fs, goal) = gen::boundary_frames(rng, mode, &mix, &frames, false, stats);
             frames = fs;
+            if rng.chance(1, 2) {
+                quiet_edge = Some(goal);
+            }
         }
         let (inbound, ends) = gen::concat(&frames);
         let fault_free = rng.chance(1, 4);
@@ -198,12 +172,20 @@ impl Prop for C05 {
             let cut = rng.usize(1, extra.len() - 1);
             inbound.extend_from_slice(&extra[..cut]);
         }
-        let reads = gen::gen_reads(rng, inbound.len(), &ends, &cfg);
+        let mut reads = gen::gen_reads(rng, inbound.len(), &ends, &cfg);
+        if let Some(edge) = quiet_edge {
+            if inbound.len() == ends.last().copied().unwrap_or(0) {
+                // the executor runs the scenario on both connection types: the blocking one skips
+                // Pending / Stall, the async one sees them (read errors are transient on both)
+                let blocking_style = rng.chance(1, 2);
+                reads = gen::quiet_edge_reads(rng, blocking_style, &frames, edge);
+            }
+        }
         let errs = reads
             .iter()
             .filter(|e| matches!(e, ReadEv::Err(_)) || matches!(e, ReadEv::Stall(ms) if *ms >= 90_000))
             .count();
-        let writes = gen::gen_writes(rng, 0, &WriteCfg::healthy());
+        let mut writes = gen::gen_writes(rng, 0, &WriteCfg::healthy());
         let mut ops = Vec::new();
         // a few explicit reads first (exercises per-call state), then drain, then one extra read
         for _ in 0..rng.below(3) {
@@ -230,8 +212,23 @@ impl Prop for C05 {
                 ops.push(AppOp::Read);
             }
         }
+        // ... over a write half that fails now and then (whole frames otherwise): a reply or a
+        // request that could not be written is the application's to deal with, the frames
+        // received are not. (The two connection types legitimately differ here — the blocking one
+        // gives up a keep-alive whose reply failed — so these runs are not compared.)
+        let mut n_werr = 0usize;
+        if ops.iter().any(|o| matches!(o, AppOp::Write(_) | AppOp::Handshake(_))) && rng.chance(1, 3) {
+            for _ in 0..rng.usize(1, 12) {
+                if rng.chance(1, 3) {
+                    writes.push(WriteEv::Err(*rng.pick(&[ErrKind::WouldBlock, ErrKind::TimedOut, ErrKind::Interrupted])));
+                    n_werr += 1;
+                } else {
+                    writes.push(WriteEv::Accept(usize::MAX >> 1));
+                }
+            }
+        }
         ops.push(AppOp::Drain {
-            max: (frames.len() + errs + 4) as u32,
+            max: (frames.len() + errs + n_werr + 4) as u32,
         });
         ops.push(AppOp::Read);
         StreamScenario {
@@ -281,7 +278,11 @@ impl Prop for C05 {
             }
             frs.push(an.facts.frame_results);
         }
-        if clean && rep.violations.is_empty() && frs[0] != frs[1] {
+        let write_faults = sc.writes.iter().any(|w| matches!(w, WriteEv::Err(_) | WriteEv::Zero));
+        if write_faults {
+            rep.probe("write_half_failing_runs");
+        }
+        if clean && !write_faults && rep.violations.is_empty() && frs[0] != frs[1] {
             let i = frs[0].iter().zip(frs[1].iter()).position(|(a, b)| a != b).unwrap_or(frs[0].len().min(frs[1].len()));
             rep.violations.push(v(
                 "equiv.blocking_vs_tokio",
